@@ -1067,6 +1067,9 @@ def loop_kani(which: str) -> KaniSpec:
         KaniHarness("verif_loop_opts::time_accessors", "complete", covers="BenchOptions::min_time / max_time (assumed in the Verus unit)"),
         KaniHarness("verif_loop_mode::initial_mode", "complete", covers="BenchContext::initial_mode, BenchMode::sample_size, fresh BenchContext"),
     ]
+    # each property runs only the complements its own statement depends on (the same split as VERIFY)
+    want = {"C03": {"has_samples", "initial_mode"}, "C04": {"time_accessors"}, "C19": {"initial_mode"}}[which]
+    hs = [h for h in hs if h.name.split("::")[-1] in want]
     return KaniSpec(injections={OPT: KANI_OPTS, BENCH: KANI_BENCH}, harnesses=hs,
                     stubs_note=["std::hash::RandomState::new -> all-zero keys (HashMap seeding needs the getrandom FFI)"])
 
